@@ -138,6 +138,16 @@ def syn_lda(rng, swap=False, chk=True, style="plain"):
     return syn_finish(s), ("lda", cols)
 
 
+def syn_mixw(rng, swap=False, chk=True, style="plain"):
+    s = s3_header(rng, swap, chk, style)
+    ns, nf, nc = rng.range(1, 3), rng.range(1, 2), rng.range(1, 3)
+    s.u32(ns, "n_sen"); s.u32(nf, "n_feat"); s.u32(nc, "n_comp"); s.u32(ns * nf * nc, "n")
+    s.hdr_end = len(s.b)
+    for i in range(ns * nf * nc):
+        s.u32(f2u(0.1 + 0.2 * (i % 4)))
+    return syn_finish(s), ("mixw", nf, nc)
+
+
 def syn_sendump(rng, swap=False, clust=0, bits=8, pad=0):
     s = Syn(swap)
     s.chk = False
@@ -390,10 +400,12 @@ def gen_stage_a(c, A, tier, stats):
             chk = (v % 2 == 0)
             makers.append(("tmat", lambda swap=swap, chk=chk, style=style: syn_tmat(rng, swap, chk, style)))
             makers.append(("lda", lambda swap=swap, chk=chk, style=style: syn_lda(rng, swap, chk, style)))
+            makers.append(("mixw", lambda swap=swap, chk=chk, style=style: syn_mixw(rng, swap, chk, style)))
             for kind in ("1d", "2d", "3d"):
                 makers.append((kind, lambda kind=kind, swap=swap, chk=chk, style=style: syn_array(rng, kind, swap, chk, style)))
-            makers.append(("sd", lambda swap=swap, v=v: syn_sendump(rng, swap, clust=[0, 0, 15, 16][v % 4],
-                                                                    bits=[8, 8, 4, 8][v % 4], pad=v % 3)))
+    for swap in (False, True):
+        for clust, bits, pad in ((0, 8, 0), (0, 8, 2), (15, 4, 1), (16, 8, 0), (16, 4, 0)):
+            makers.append(("sd", lambda swap=swap, clust=clust, bits=bits, pad=pad: syn_sendump(rng, swap, clust, bits, pad)))
     for name, mk in makers:
         s, target = mk()
         b = bytes(s.b)
@@ -411,6 +423,25 @@ def gen_stage_a(c, A, tier, stats):
             for v in ([0, 32, 10, 35, 101] if tier == "thorough" else [rng.choice([0, 32, 10, 35, 101, 255])]):
                 if b[off] != v:
                     A.add(target, [(hx(b), f"b{off}:{v:x}")], dict(meta, kind="text"))
+    # sendump: invalid cluster parameters; arguments (codebook / model dimensions) that do not match the file
+    for clust, bits in ((7, 8), (16, 5), (15, 8)):
+        s, t = syn_sendump(rng, False, clust, bits, 0)
+        A.add(t, [(hx(bytes(s.b)), "-")], {"target": "sd", "file": "syn-sd", "kind": "params"})
+    s, t = syn_sendump(rng, False, 0, 8, 1)
+    for d in ((1, 0, 0), (0, 1, 0), (0, 0, 1), (0, 0, -1)):
+        t2 = ("sd", t[1] + d[0], t[2] + d[1], t[3] + d[2])
+        A.add(t2, [(hx(bytes(s.b)), "-")], {"target": "sd", "file": "syn-sd", "kind": "params"})
+    # mixture weights read for codebooks with other dimensions
+    s, t = syn_mixw(rng, False, True, "plain")
+    for d in ((1, 0), (0, 1)):
+        A.add(("mixw", t[1] + d[0], t[2] + d[1]), [(hx(bytes(s.b)), "-")], {"target": "mixw", "file": "syn-mixw", "kind": "params"})
+    # LDA read for a front end with another stream length
+    s, t = syn_lda(rng, False, True, "plain")
+    A.add(("lda", t[1] + 3), [(hx(bytes(s.b)), "-")], {"target": "lda", "file": "syn-lda", "kind": "params"})
+    # means / variances with equal counts but different vector lengths
+    sm, _ = syn_gau(rng, False, True, "plain", dims=(2, 2, 1, [2, 3]))
+    sv, _ = syn_gau(rng, False, True, "plain", var=True, dims=(2, 2, 1, [3, 2]))
+    A.add(("gau",), [(hx(bytes(sm.b)), "-"), (hx(bytes(sv.b)), "-")], {"target": "gau", "file": "syn-gau", "kind": "mismatch"})
     # gauden: means and variances, faults in either file, mismatching pairs
     for v in range(nvar):
         swap = v % 2 == 1
@@ -550,11 +581,42 @@ def gen_stage_b(c, tier, model_dir, tag, stats):
     return faults
 
 
-def expected_b(fault, plan_accepts):
+def meta_of_edit(model_dir, fn, ed):
+    """fault class of a (file, edit) pair given literally (corpus, replay)"""
+    if ed == "-":
+        return {"kind": "intact"}
+    if ed == "x":
+        return {"kind": "missing"}
+    if ed.startswith("t"):
+        return {"kind": "trunc"}
+    m = re.fullmatch(r"w(\d+):([0-9a-fA-F]+)", ed)
+    if m and (model_dir / fn).exists():
+        b = (model_dir / fn).read_bytes()
+        off, v = int(m.group(1)), int(m.group(2), 16)
+        for name, o in layout(fn, b)["fields"].items():
+            if o == off:
+                return {"kind": "chksum" if name == "chksum" else "field", "field": name, "value": v,
+                        "orig": struct.unpack_from("<i", b, off)[0]}
+    return {"kind": "other"}
+
+
+def expected_b(fault, plan_accepts, model_dir=None):
     """expected decoder_init outcome of a stage-B fault: 'acc', 'rej' or None (= not judged, only cleanliness)"""
     mode, fn, ed, meta = fault
     if meta["kind"] == "intact":
         return "acc"
+    if meta["kind"] == "other":
+        return None
+    if fn == "feat_params.json" and meta["kind"] in ("trunc", "missing") and model_dir is not None:
+        # without its feature parameters the model cannot match the default front end; a cut that still
+        # leaves complete JSON (only trailing blanks removed) is the same file
+        if meta["kind"] == "missing":
+            return "rej"
+        try:
+            json.loads((model_dir / fn).read_bytes()[:int(ed[1:])].decode("utf8"))
+            return None
+        except ValueError:
+            return "rej"
     if meta["kind"] == "missing":
         return "rej" if fn not in ("feat_params.json", "noisedict.txt") else None
     if fn in ("feat_params.json", "noisedict.txt"):
@@ -730,6 +792,15 @@ def check(c):
         core = l.split(" | ")[0].split(" ", 1)[-1]
         return core.startswith(("ok", "H:")) and not any(t in core for t in ("rej", "OOB", "IDX", "bad"))
     intact_ok = all(accepted(mres.get(cid, "")) for cid, _, m in A.cases if m["kind"] == "intact")
+    # every error return of the model was exercised against the real code; the five listed ones are behind the
+    # "count fits into the rest of the file" test of the repaired code and cannot be reached any more
+    dead = {"Failed to read density data", "Failed to read transition matrix", "get(arraydata) failed",
+            "read (feature-lengths) failed", "s3file_get (arraydata) failed"}
+    src = (vlib.LEAN / "SSVerif" / "Model" / "S3file.lean").read_text()
+    all_sites = {m for m in re.findall(r'"([A-Za-z][^"\n]{6,})"', src) if not m.startswith("is extremely")}
+    missed = sorted(x for x in all_sites - dead if x not in model_sites)
+    c.oblige(f"stage A: all {len(all_sites - dead)} reachable error returns of the model were exercised against the implementation",
+             not missed, missed)
     c.oblige("stage A: every intact synthetic/bundled file is accepted by the model (plans are not vacuous rejecters)", intact_ok)
 
     # ---- stage B
@@ -741,14 +812,12 @@ def check(c):
             for l in corp.read_text().split("\n"):
                 w = l.split()
                 if len(w) == 3 and not l.startswith("#"):
-                    faults.insert(0, (w[0], w[1], w[2], {"kind": "corpus"}))
+                    faults.insert(0, (w[0], w[1], w[2], meta_of_edit(envs[tag][0], w[1], w[2])))
         res = run_stage_b(c, binp, tag, envs[tag], faults, nw)
         for i, fault in enumerate(faults):
             mode, fn, ed, meta = fault
             d = res.get(i)
-            exp = None if meta["kind"] == "corpus" else expected_b(fault, plan_accepts[tag])
-            if meta["kind"] == "corpus":
-                exp = None
+            exp = expected_b(fault, plan_accepts[tag], envs[tag][0])
             bad = judge_b(fault, d, exp)
             b_total += 1
             kk = f"{fn}/{meta['kind']}/{mode}"
@@ -801,9 +870,9 @@ def replay(c, path):
         tag = obj["model"]
         env = prepare_model(c, tag)
         f = obj["fault"]
-        fault = (f["path"], f["file"], f["edits"], {"kind": "corpus"})
+        fault = (f["path"], f["file"], f["edits"], meta_of_edit(env[0], f["file"], f["edits"]))
         res = run_stage_b(c, binp, tag, env, [fault], 1)
-        bad = judge_b(fault, res.get(0), obj.get("expected"))
+        bad = judge_b(fault, res.get(0), obj.get("expected") or expected_b(fault, {}, env[0]))
         c.oblige("replayed stage-B fault is handled cleanly", bad is None, bad)
         if bad:
             c.violation({"stage": "B", "model": tag, "fault": f, "observed": (res.get(0) or {}).get("_line"),
